@@ -82,7 +82,12 @@ pub fn tokenize_inline_content(content: &str) -> Result<Vec<Node>, CompilerError
         // Divert or tunnel: -> target  or  -> target ->
         if ch == '-' && content[index..].starts_with("->") {
             if !text.is_empty() {
-                nodes.push(Node::Text(std::mem::take(&mut text)));
+                // Text that runs into a divert at the end of the line ends in exactly one space
+                // (inklecate trims it and terminates it with a space), so that it joins the
+                // text of the target: `He points at the mug,-> drinkit`.
+                let mut joined = std::mem::take(&mut text).trim_end().to_owned();
+                joined.push(' ');
+                nodes.push(Node::Text(joined));
             }
             let divert_str = content[index..].trim();
             let mut divert_nodes = parse_divert_line(divert_str)?;
@@ -104,11 +109,11 @@ pub fn tokenize_inline_content(content: &str) -> Result<Vec<Node>, CompilerError
             if let Some((condition, branch_text)) = parse_inline_conditional(inline)? {
                 // Split on top-level '|' to get optional false branch.
                 let branches: Vec<&str> = split_top_level_pipe(branch_text);
-                // Use trim_end (not trim) to preserve the leading space that authors
-                // write after ':' — inklecate keeps it as part of the text token.
-                let when_true = tokenize_inline_content(branches[0].trim_end())?;
+                // The branch text is kept exactly as written: inklecate keeps the space after
+                // ':' and the one before '|' or '}' as part of the text (`{c:to my lips }and`).
+                let when_true = tokenize_inline_content(branches[0])?;
                 let when_false = if branches.len() > 1 {
-                    Some(tokenize_inline_content(branches[1].trim_end())?)
+                    Some(tokenize_inline_content(branches[1])?)
                 } else {
                     None
                 };
